@@ -67,7 +67,9 @@ Inductive ccase :=
 | CToJson (input : list N) (ft : ftable) (out : option (list N)) (errs : list N)
 | CUnmarshal (input : list N) (ft : ftable) (obs : uobs)
 | CSeries (input : list N) (ft : ftable) (known : list (list N))
+          (rejects : list (list N * list N))
           (out : option (list (list N * list N))) (errs : list N)
+| CStream (input : list N) (ft : ftable) (vals : list (list N)) (fin : N) (errs : list N)
 | CShell (input : list N) (out : option (list (list N))) (errs : list N)
 | CUnquote (lit : list N) (out : option (list N))
 | CJsonQuote (bs : list N) (out : list N)
@@ -116,10 +118,21 @@ Definition check_case (c : ccase) : bool :=
       | Ok UMore, OMore => true
       | _, _ => false
       end
-  | CSeries input ft known out errs =>
+  | CSeries input ft known rejects out errs =>
       match decode_series (flookup ft) (fun t => t)
-              (fun n => existsb (list_N_eqb n) known) (utf8_decode input) with
+              (fun n => if existsb (list_N_eqb n) known
+                        then Some (fun t => negb (existsb (pair_eqb (n, t)) rejects))
+                        else None)
+              (utf8_decode input) with
       | Ok (o, e) => opt_eqb (list_eqb pair_eqb) o out && list_N_eqb (codes e) errs
+      | _ => false
+      end
+  | CStream input ft vals fin errs =>
+      (* fin: 0 = More() became false; 1 = Decode returned errors; 2 = json.Unmarshal failed *)
+      match decode_all (flookup ft) (fun t => t) (utf8_decode input) with
+      | Ok (vs, None) => list_eqb list_N_eqb vs vals && (fin =? 0)
+      | Ok (vs, Some (DErrs e)) => list_eqb list_N_eqb vs vals && (fin =? 1) && list_N_eqb (codes e) errs
+      | Ok (vs, Some (DJsonErr _)) => list_eqb list_N_eqb vs vals && (fin =? 2)
       | _ => false
       end
   | CShell input out errs =>
